@@ -1677,5 +1677,6 @@ pub fn corpus(thorough: bool) -> Vec<Case> {
     out.extend(f15());
     out.extend(f5o());
     out.extend(super::stdlib::cases(thorough));
+    out.extend(super::oop::cases(thorough));
     out
 }
